@@ -664,10 +664,24 @@ class Daemon(object):
         if not force:
             if hasattr(obj_or_class, "_pyroId") and obj_or_class._pyroId != "":  # check for empty string is needed for Cython
                 pyro_id = obj_or_class._pyroId
-                if pyro_id and self.objectsById.get(pyro_id) is obj_or_class:
+                registered = self.objectsById.get(pyro_id) if pyro_id else None
+                if isinstance(registered, weakref.ref):
+                    registered = registered()
+                if pyro_id and registered is obj_or_class:
                     raise errors.DaemonError("object or class already has a Pyro id")
             if objectId in self.objectsById:
                 raise errors.DaemonError("an object or class is already registered with that id")
+        else:
+            # an object that is pushed out of this id is no longer a Pyro object
+            displaced = self.objectsById.get(objectId)
+            if isinstance(displaced, weakref.ref):
+                displaced = displaced()
+            if displaced is not None and displaced is not obj_or_class and getattr(displaced, "_pyroId", None) == objectId:
+                for attr in ("_pyroDaemon", "_pyroId"):
+                    try:
+                        delattr(displaced, attr)
+                    except AttributeError:
+                        pass
         # set some pyro attributes
         obj_or_class._pyroId = objectId
         obj_or_class._pyroDaemon = self
